@@ -275,6 +275,66 @@ func Respell(bt *Built, how string, r *base.Rand) (RenderOpts, int) {
 			}
 			return "(" + TypeText(u.T) + ")"
 		}}, countMentions(bt, okSub)
+	case "paren-pointer":
+		// (*d.T) wherever *d.T is written, (d.T) elsewhere (declarations only: not in composite literals)
+		okSub := map[string]bool{SubVar: true, SubParam: true, SubResult: true, SubField: true, SubOther: true}
+		return RenderOpts{Spell: func(l *Line, u *Use) string {
+			if l.File == nil || !isU[l.File.Pkg] || !okSub[u.Sub] || u.T.Local || u.SpellAs != "" || strings.Contains(l.Text, "{{}}") || strings.Contains(l.Text, `{"k": {}}`) || strings.Contains(l.Text, "new(") || strings.Contains(l.Text, ".(") {
+				return ""
+			}
+			if l.Feature == "" {
+				l.Feature = "paren-spelling"
+			}
+			return "§Q§" + TypeText(u.T) + "§"
+		}}, countMentions(bt, okSub)
+	case "alias-of-pointer":
+		// type P = *d.T declared in another file of the package; "*d.T" is respelled "P", "d.T" is respelled through a plain alias
+		b := &B{P: p, R: r}
+		names := map[*Type]string{}
+		name := func(t *Type) string {
+			if names[t] == "" {
+				names[t] = fmt.Sprintf("%d%s", len(names), t.Name)
+			}
+			return names[t]
+		}
+		spelled := map[*Line]bool{}
+		okSub := map[string]bool{SubVar: true, SubParam: true, SubResult: true, SubField: true}
+		for _, u := range bt.UPkgs {
+			used := map[*Type]bool{}
+			for _, f := range u.Files {
+				if f.ExtTest {
+					continue
+				}
+				for _, l := range f.flatLines() {
+					for _, us := range l.Uses {
+						if us.Kind == UTypeRef && us.T != nil && !us.T.Local && us.T.Pkg != f.Pkg && okSub[us.Sub] && us.SpellAs == "" && exportedName(us.T.Name) {
+							used[us.T] = true
+							spelled[l] = true
+							n++
+							if l.Feature == "" {
+								l.Feature = "alias-spelling"
+							}
+						}
+					}
+				}
+			}
+			af := b.NewFile(u, "aliases.go")
+			for _, t := range bt.Types {
+				if used[t] {
+					af.Decls = append(af.Decls, b.tstmt("type PA"+name(t)+" = *%T", free(refT(t, SubOther), TONL)))
+					af.Decls = append(af.Decls, b.tstmt("type VA"+name(t)+" = %T", free(refT(t, SubOther), TONL)))
+				}
+			}
+			if len(af.Decls) == 0 {
+				af.Decls = append(af.Decls, &Node{Pre: []*Line{b.line("var " + b.d("pad") + " = 0")}})
+			}
+		}
+		return RenderOpts{Spell: func(l *Line, u *Use) string {
+			if !spelled[l] || !okSub[u.Sub] || u.SpellAs != "" || u.T.Local || !exportedName(u.T.Name) {
+				return ""
+			}
+			return "§P§PA" + name(u.T) + "|VA" + name(u.T) + "§"
+		}}, n
 	case "alias-local", "alias-third-package", "alias-chain":
 		b := &B{P: p, R: r}
 		names := map[*Type]string{}
